@@ -78,6 +78,21 @@ func c12Compact(t *rapid.T) {
 	labels := map[string]bool{}
 	enc := gen.EncodeValue(t, v, labels)
 	p := enc.Payload()
+	if rapid.IntRange(0, 2).Draw(t, "viaParser") == 0 {
+		// the payload as the tool's own parser emits it for a one-key file holding this value
+		b := []byte("REDIS0009")
+		b = append(b, gen.OpSelectDB, 0, enc.Type)
+		b = gen.AppendRawString(b, []byte("k"))
+		b = append(b, enc.Bytes...)
+		b = append(b, gen.OpEOF)
+		entries, lerr, lres := loadAll(&gen.ChunkReader{Data: appendCRC(b), Sizes: gen.ChunkSizes().Draw(t, "chunks")})
+		if lerr != nil || !lres.Completed || len(entries) != 1 {
+			violation(t, "C12", c12Sig(labels, enc, "parser-error"), "one-key file with a %s value rejected by the parser: %v %v", enc.Label, lerr, lres)
+			return
+		}
+		p = entries[0].Value
+		labels["via-parser"] = true
+	}
 	var o interface{}
 	var err error
 	res := logcap.Run(func() { o, err = rdb.DecodeDump(p) })
